@@ -48,7 +48,7 @@ def run_case(ctx, rng, index, casedir):
     all_known = rng.random() < 0.5
     hi = 300 if ctx.tier == "quick" else rng.choice([300, 1500, 5000])
     bigout = index % 7 == 5  # output larger than one 64 KiB BGZF block (long optional fields)
-    w = SC.build(rng, casedir, index, nrec=rng.randint(120, 300) if bigout else rng.choice([1, 3, rng.randint(4, 40), rng.randint(40, hi)]),
+    w = SC.build(rng, casedir, index, nrec=rng.randint(120, 300) if bigout else rng.choice([1, 3, rng.randint(4, 40), rng.randint(40, hi)] + ([0] if rng.random() < 0.1 else [])),
                  force_all_known=all_known, n_chrom=rng.choice([2, 3, 4]) if bigout else rng.choice([1, 2, 3, 4]),
                  tags=["zl:Z:" + "y" * rng.choice([300, 700, 1500])] if bigout else
                  (rng.choice(["safe", "safe", ["zl:Z:" + "y" * 700]]) if ctx.tier == "thorough" else "safe"))
